@@ -15,7 +15,8 @@ Immediate Encoding", "Instruction Details", "Privileged ISA") — NOT from `Proc
 Everything the document leaves undefined (unaligned or > 1MB effective addresses, CSRs other than
 `mngr2proc` read / `proc2mngr` write) stops the interpreter with `Stop.undefined`; a word that is
 not in the encoding table stops it with `Stop.illegal`; `csrr mngr2proc` on an empty FIFO ("will
-stall") stops it with `Stop.inputEmpty`.  The accelerator CSRs (xcelregXX) are outside the model.
+stall") stops it with `Stop.inputEmpty`.  The accelerator CSRs (xcelregXX) are added by the conservative extension
+`StateX` / `execX` / `stepX` / `runX` at the end of the file (the tutorial's NullXcel: one register behind all 32 numbers).
 
 CSRR / CSRW are the pseudo-instructions `csrrs rd, csr, x0` / `csrrw x0, csr, rs1` of the document:
 the unused register field is 0 in `encode` and is required to be 0 by `decode`.
@@ -258,6 +259,61 @@ def run : Nat → State → Nat → State × Nat × Stop
     match step s with
     | .error e => (s, n, e)
     | .ok s' => run fuel s' (n + 1)
+
+/-! ### accelerator CSRs (xcelreg00..31 = 0x7E0..0x7FF)
+
+The document: "used to communicate data to/from the processor and an accelerator; the exact semantics of each register
+is specific to each accelerator".  The accelerator of the tutorial's test harness is `NullXcel.py` (`NullXcelRTL`): ONE
+32-bit register `xr0`; a write request to ANY of the 32 register numbers stores the data in `xr0`, a read request from
+ANY register number returns `xr0` (the address field is ignored); `xr0` is 0 at power-on.
+
+`exec` / `step` / `run` above are the accelerator-free ISA (accelerator CSRs stop them with `Stop.undefined`; the
+refinement proofs of the pipeline model are stated against them).  `execX` / `stepX` / `runX` extend them conservatively
+with the NullXcel register: identical on every other instruction (`PV.C20.execX_conservative`). -/
+
+def isXcelCsr (csr : Nat) : Bool := decide (0x7E0 ≤ csr) && decide (csr ≤ 0x7FF)
+
+/-- does the instruction access an accelerator register? -/
+def Inst.isXcel : Inst → Bool
+  | .csrr _ csr => isXcelCsr csr
+  | .csrw csr _ => isXcelCsr csr
+  | _ => false
+
+/-- architectural state with the NullXcel accelerator attached -/
+structure StateX where
+  core : State
+  xr0 : Nat
+deriving Inhabited
+
+def StateX.init (mem : Mem) (inp : List Nat) : StateX := { core := State.init mem inp, xr0 := 0 }
+
+def liftX (s : StateX) (r : Except Stop State) : Except Stop StateX :=
+  match r with
+  | .ok c => .ok { s with core := c }
+  | .error e => .error e
+
+def execX (s : StateX) (i : Inst) : Except Stop StateX :=
+  let pc4 := (s.core.pc + 4) % W32
+  match i with
+  | .csrr rd csr =>
+    if isXcelCsr csr then .ok { s with core := { s.core with pc := pc4, regs := rset s.core.regs rd s.xr0 } }
+    else liftX s (exec s.core i)
+  | .csrw csr rs1 =>
+    if isXcelCsr csr then .ok { core := { s.core with pc := pc4 }, xr0 := rget s.core.regs rs1 }
+    else liftX s (exec s.core i)
+  | _ => liftX s (exec s.core i)
+
+def stepX (s : StateX) : Except Stop StateX :=
+  match fetch s.core with
+  | .ok i => execX s i
+  | .error e => .error e
+
+def runX : Nat → StateX → Nat → StateX × Nat × Stop
+  | 0, s, n => (s, n, .fuel)
+  | fuel + 1, s, n =>
+    match stepX s with
+    | .error e => (s, n, e)
+    | .ok s' => runX fuel s' (n + 1)
 
 /-- memory image from `(address, word)` pairs -/
 def loadImage (ws : List (Nat × Nat)) : Mem :=
